@@ -151,7 +151,12 @@ func classify(e *cliError) string {
 // cmdVerify runs `gobl verify -k <public key file>` with the envelope on stdin.
 func (p *paths) cmdVerify(env []byte, k int) string {
 	atomic.AddInt64(&p.nCmd, 1)
-	cmd := exec.Command(p.bin, "verify", "-k", p.pubFiles[k-1])
+	return p.cmdVerifyWith(env, p.pubFiles[k-1])
+}
+
+// cmdVerifyWith runs `gobl verify -k <file>` with the envelope on stdin.
+func (p *paths) cmdVerifyWith(env []byte, file string) string {
+	cmd := exec.Command(p.bin, "verify", "-k", file)
 	cmd.Stdin = bytes.NewReader(env)
 	var stderr bytes.Buffer
 	cmd.Stderr = &stderr
